@@ -28,7 +28,9 @@ BASES = [
     [mrec("a", "x", ["a1", "a2"]), mrec("b", "y", ["b1"], ["y1", "y2"]), mrec("c", "z", [], [], "^1$")],
     "incremental",
     [mrec("", "d", ["dd"], ["d1"]), mrec("b", "y", ["b1"]), mrec("c", "z")],   # the empty (default) prefix is a legal canonical prefix
+    [mrec("a", "x", ["a1", "b1"], ["x1"]), mrec("b", "y"), mrec("c", "z")],          # vocabulary of base 0, grouped differently
 ]
+SHADOW = {0: 4}   # every dictionary applied to base 0 is applied to base 4 right afterwards in the same process
 NAMES = ["a", "b", "c", "a1", "b1", "n", "m"]
 NAMES_BY_BASE = {3: ["", "b", "c", "dd", "b1", "n", "m"]}
 
@@ -66,6 +68,8 @@ def dictionaries(n):
 def units(tier, seed):
     us = []
     for b in range(len(BASES)):
+        if b in SHADOW.values():
+            continue
         for n in range(1, max_pairs(tier) + 1):
             keysets = list(it.combinations(names(b), n))
             for ch in chunks(keysets, 35 if n >= 3 else 4):
@@ -182,8 +186,9 @@ def check(base_idx, pairs, twice=False, ctx=None):
             r = before.owner(k)
             if r is None or before.owner(v) is not None:
                 continue
-            if targets.count(v) > 1 or v in remapping:
+            if targets.count(v) > 1:
                 continue  # ambiguous: several pairs compete for the same new name
+            # (v may itself be a key: it is unknown, so the pair v->w is inapplicable and does not release anything)
             r2 = by_uri.get(r.uri_prefix)
             if r2 is not None and r2.prefix != v:
                 fails.append(("applicable-pair-not-applied", f"{w}: {k!r}->{v!r} is applicable and {v!r} was unused, but the record is named {r2.prefix!r}"))
@@ -232,17 +237,23 @@ def run_unit(unit, ctx):
                 case = {"base": unit["base"], "pairs": pairs, "twice": True}
                 for sig, msg in check(unit["base"], pairs, True, ctx)[:2]:
                     ctx.violation("C11/" + sig, msg, case)
+                if unit["base"] in SHADOW:
+                    b2 = SHADOW[unit["base"]]
+                    for sig, msg in check(b2, pairs, False, ctx)[:2]:
+                        ctx.violation("C11/" + sig, msg, {"base": b2, "pairs": pairs, "twice": False, "after_base": unit["base"]})
         ctx.sample({"base": unit["base"], "pairs": [[k, "n"] for k in keys], "twice": True})
 
 
 def replay(case):
+    if "after_base" in case:   # the same dictionary was applied to another converter with the same vocabulary just before
+        check(case["after_base"], case["pairs"], True, None)
     return [("C11/" + s, m) for s, m in check(case["base"], case["pairs"], case.get("twice", False), None)]
 
 
 def describe(tier):
     return {
         "level": "model_checking",
-        "rule": f"4 base converters (3 records with synonyms on both sides / more synonyms and a pattern / built incrementally by merges / one whose canonical prefix is the empty string) x every "
+        "rule": f"5 base converters (one only as a shadow: same vocabulary as base 0 but grouped differently, run right after it for every dictionary; 3 records with synonyms on both sides / more synonyms and a pattern / built incrementally by merges / one whose canonical prefix is the empty string) x every "
         f"dictionary of 1..{max_pairs(tier)} pairs with distinct keys over the 7 names {NAMES} (canonical x3, synonyms x2, unknown x2) in every key "
         "order, applied once and once more to its own result; distinct_nontrivial = distinct result states that differ from the base",
         "bounds": {"pairs": max_pairs(tier), "names": len(NAMES), "bases": len(BASES)},
